@@ -47,6 +47,25 @@ def run(F, chk):
     L2 = chk.rule('L2', 'all four stages: no clone of a message')
     L7 = chk.rule('L7', 'all four stages: no lossy container operation / unclassified consumer')
 
+    # S6: the lifecycle stage holds a received message back (stores it without any send attempt) only while some lifecycle
+    # is unconfirmed.  Otherwise - after a drain loop was cut short by a send error - it would keep storing every further
+    # message and never notice that the consumer is gone (no termination, unbounded queue).
+    S6 = chk.rule('S6', 'lifecycle stage: a received message is queued (no send attempt) only under `!buffered_lcs.is_empty()`')
+    import lcstage, c05
+    from report import RuleResult
+    for b in lcstage.find_stage(F):
+        st = lcstage.Stage(F, b)
+        tmp = RuleResult('Q2', 'scratch')
+        c05.check_handover(st, tmp)
+        S6.fn(b.path)
+        bad = [v for v in tmp.violations if 'store-unguarded' in v['key']]
+        S6.sites += len(st.blocks_with('STORE'))
+        if bad:
+            S6.violation(('store-without-buffered-lifecycle', b.path), 'the lifecycle stage queues the received message at %s without a dominating `!buffered_lcs.is_empty()` test: with the consumer gone (drain loops '
+                         'stop at the first send error) every further message is queued and the stage never attempts a send again - it neither terminates nor bounds its queue' % bad[0]['where'], where=bad[0]['where'])
+        else:
+            S6.ok(sample={'stage': b.path, 'stores_of_the_received_message': len(st.blocks_with('STORE')), 'all_under': '!buffered_lcs.is_empty()'})
+    S6.floor('lifecycle stage functions', len(lcstage.find_stage(F)), 1)
     helpers = find_helper(F)
     S2.floor('blocking-send helper (anchor: fn(T, &SyncSender<T>) -> Result<(), SendError<T>>)', len(helpers), 1)
     helper_paths = set(h.path for h in helpers)
